@@ -233,6 +233,12 @@ impl Mk for u64 {
         }
     }
 }
+impl Mk for usize {
+    // small: it may serve as a width
+    fn mk(d: &mut Draw) -> Self {
+        (d.next() % 13) as usize
+    }
+}
 impl Mk for bool {
     fn mk(d: &mut Draw) -> Self {
         d.next() % 2 == 1
